@@ -114,13 +114,19 @@ var verifTree = []struct {
 	{"d", true, ""}, {"d/a.js", false, ""}, {"d/b.css", false, ""}, {"d/.h.js", false, ""}, {"d/x.txt", false, ""},
 	{"d/sub", true, ""}, {"d/sub/c.js", false, ""}, {"d/.hid", true, ""}, {"d/.hid/e.js", false, ""},
 	{"d/l.js", false, "d/a.js"}, {"d/ld", false, "d/sub"}, {"d/a.css", false, ""},
+	{"d/U.JS", false, ""}, // extension in upper case: not a known type (minify(Task) infers the type case-sensitively); present iff d/x.txt is
 }
 
 // VerifCreateTasks: every subset of the optional tree entries x flags x input shape x output shape.
 func VerifCreateTasks(n int) {
 	fsys := &vMemFS{nodes: map[string]*vNode{}}
 	for i, e := range verifTree {
-		present := i == 0 || i == 1 || vBool("has"+string(rune('a'+i)))
+		var present bool
+		if e.path == "d/U.JS" {
+			present = fsys.nodes["d/x.txt"].exists
+		} else {
+			present = i == 0 || i == 1 || vBool("has"+string(rune('a'+i)))
+		}
 		fsys.nodes[e.path] = &vNode{dir: e.dir, link: e.link, exists: present}
 	}
 	// a symlink needs its target, a file its directory
